@@ -108,6 +108,9 @@ where
         // Same simulated day, but every simulated process sees its own time of day and pid.
         w.now_unix = env.now_unix();
         w.pid = 10_000 + (env.hash_seed % 50_000) as i32;
+        w.mono_ns = (3_600 + env.hash_seed % 86_400) * 1_000_000_000;
+        w.latency_seed = env.hash_seed;
+        w.requests_timed = 0;
         w.unmodelled.clear();
         w.fs.begin_process(env.knobs.clone(), env.fs_faults.clone());
         w.fs.disk.clock = w.now_unix;
